@@ -84,7 +84,16 @@ func (g *gcmAsm) Seal(dst, nonce, plaintext, data []byte) []byte {
 	}
 
 	if len(plaintext) > 0 {
-		gcmSm4Enc(&g.bytesProductTable, out, plaintext, &counter, &tagOut, g.cipher.enc[:])
+		if r := len(plaintext) % gcmBlockSize; r != 0 && r+g.tagSize < gcmBlockSize {
+			// The assembly stores the final partial block as a whole block and
+			// relies on the tag space behind it; with a short tag that store
+			// would run past out. Encrypt into a buffer that has the room.
+			tmp := make([]byte, len(plaintext)+gcmTagSize)
+			gcmSm4Enc(&g.bytesProductTable, tmp, plaintext, &counter, &tagOut, g.cipher.enc[:])
+			copy(out, tmp[:len(plaintext)])
+		} else {
+			gcmSm4Enc(&g.bytesProductTable, out, plaintext, &counter, &tagOut, g.cipher.enc[:])
+		}
 	}
 	gcmSm4Finish(&g.bytesProductTable, &tagMask, &tagOut, uint64(len(plaintext)), uint64(len(data)))
 	copy(out[len(plaintext):], tagOut[:])
